@@ -2,27 +2,31 @@
  * (vlib.build_simworld(name="c20sim", extra_sources=[this], extra_cflags=["-Wl,--wrap=..."])).
  *
  * simworld.c is unchanged.  The hooks are GNU ld --wrap interpositions on calls that cross translation
- * units of the library:
- *   conn_interface_write   event.c -> (top of the interface stack)  and  compression.c -> next layer
+ * units:
+ *   conn_interface_write   event.c -> top of the interface stack,  compression.c -> next layer
  *   parser_feed            event.c -> parser: the bytes handed to the XML parser
- *   deflate / inflate      compression.c -> zlib (only streams whose `opaque` is set, i.e. the library's;
- *                          the streams of simworld's server-side codec have opaque == NULL)
+ *   conn_disconnect        any -> conn.c
+ *   deflate / inflate      compression.c -> zlib (streams whose `opaque` is set, i.e. the library's), and
+ *                          simworld.c -> zlib (opaque == NULL: the server-side codec of simworld)
  *   xmpp_run_once          simworld.c -> event.c: iteration marker
+ *   xmpp_ctx_free          simworld.c -> ctx.c: end of the scenario
  * The records go to stdout as they happen, i.e. *before* the trace line that simworld prints with puts()
  * at the end of the scenario; the output line of a scenario is therefore
- *     <hook records> "#" <simworld trace>
- * ('#' is printed by the first hook record of a scenario... no: by the run_once wrapper, see below).
+ *     <hook records> "# " <simworld trace>
  *
- * Record vocabulary (space separated, all before the single '#'):
+ * Record vocabulary (space separated):
  *   |                         end of an xmpp_run_once
  *   w<len>=<ret>              conn_interface_write on the connection's top interface while a compression
- *                             layer is installed (event.c's send loop)
+ *                             layer is installed (event.c's send loop); printed when the call returns, i.e.
+ *                             after the d/n records of the calls it made
  *   n<len>=<ret>:<hex>        conn_interface_write of the compression layer to the next layer, with the
  *                             (compressed) bytes offered
- *   d<in>,<out>,<flush>=<ret>,<consumed>:<hex produced>     one deflate call of the library
- *   i<in>,<out>=<ret>,<consumed>,<produced>                 one inflate call of the library
+ *   d<in>,<room>,<flush>,<consumed>,<ret>:<hex produced>    one deflate call of the library
+ *   i<in>,<room>,<consumed>,<ret>:<hex produced>            one inflate call of the library
+ *   s<in>=<out>               simworld's server deflated an rx chunk of <in> bytes into <out> bytes
  *   p<hex>                    parser_feed while a compression layer is installed
  *   P<len>                    parser_feed without compression layer (length only)
+ *   E<conn->error>            conn_disconnect on a connection that is not yet disconnected
  */
 #include <stdio.h>
 #include <string.h>
@@ -45,8 +49,9 @@ int __wrap_conn_interface_write(struct conn_interface *intf, const void *buff, s
 {
     xmpp_conn_t *conn = intf->conn;
     int top = intf == &conn->intf;
+    int layered = conn->compression.state != NULL;
     int ret = __real_conn_interface_write(intf, buff, len);
-    if (conn->compression.state) {
+    if (layered) {
         if (top) printf("w%zu=%d ", len, ret);
         else { printf("n%zu=%d:", len, ret); hx(buff, len); putchar(' '); }
     }
@@ -54,48 +59,53 @@ int __wrap_conn_interface_write(struct conn_interface *intf, const void *buff, s
 }
 
 int __real_parser_feed(parser_t *parser, char *chunk, int len);
-static xmpp_conn_t *feeding;
+static xmpp_conn_t *feeding;   /* the (single) connection of the scenario, see xmpp_run_once below */
 int __wrap_parser_feed(parser_t *parser, char *chunk, int len)
 {
-    /* which connection?  the only caller is xmpp_run_once, which passes conn->parser; the hook cannot
-       see the connection, so it looks at the context-free fact "some connection has a compression layer"
-       recorded by the write/inflate hooks: good enough for single-connection scenarios */
-    if (feeding && feeding->compression.state && feeding->parser == parser) { putchar('p'); hx((unsigned char *)chunk, (size_t)len); putchar(' '); }
-    else printf("P%d ", len);
+    if (feeding && feeding->compression.state && feeding->parser == parser) {
+        putchar('p'); hx((unsigned char *)chunk, (size_t)len); putchar(' ');
+    } else printf("P%d ", len);
     return __real_parser_feed(parser, chunk, len);
+}
+
+void __real_conn_disconnect(xmpp_conn_t *conn);
+void __wrap_conn_disconnect(xmpp_conn_t *conn)
+{
+    if (conn->state != XMPP_STATE_DISCONNECTED) printf("E%d ", conn->error);
+    __real_conn_disconnect(conn);
 }
 
 int __real_deflate(z_streamp strm, int flush);
 int __wrap_deflate(z_streamp strm, int flush)
 {
+    uInt in0 = strm->avail_in, out0 = strm->avail_out;
+    Bytef *o = strm->next_out;
+    int ret = __real_deflate(strm, flush);
     if (strm->opaque) {
-        uInt in0 = strm->avail_in, out0 = strm->avail_out;
-        Bytef *o = strm->next_out;
-        int ret = __real_deflate(strm, flush);
-        printf("d%u,%u,%d=%d,%u:", in0, out0, flush, ret, in0 - strm->avail_in);
+        printf("d%u,%u,%d,%u,%d:", in0, out0, flush, in0 - strm->avail_in, ret);
         hx(o, (size_t)(out0 - strm->avail_out));
         putchar(' ');
-        return ret;
-    }
-    return __real_deflate(strm, flush);
+    } else printf("s%u=%u ", in0, out0 - strm->avail_out);
+    return ret;
 }
 
 int __real_inflate(z_streamp strm, int flush);
 int __wrap_inflate(z_streamp strm, int flush)
 {
+    uInt in0 = strm->avail_in, out0 = strm->avail_out;
+    Bytef *o = strm->next_out;
+    int ret = __real_inflate(strm, flush);
     if (strm->opaque) {
-        uInt in0 = strm->avail_in, out0 = strm->avail_out;
-        int ret = __real_inflate(strm, flush);
-        printf("i%u,%u=%d,%u,%u ", in0, out0, ret, in0 - strm->avail_in, out0 - strm->avail_out);
-        return ret;
+        printf("i%u,%u,%u,%d:", in0, out0, in0 - strm->avail_in, ret);
+        hx(o, (size_t)(out0 - strm->avail_out));
+        putchar(' ');
     }
-    return __real_inflate(strm, flush);
+    return ret;
 }
 
 void __real_xmpp_run_once(xmpp_ctx_t *ctx, unsigned long timeout);
 void __wrap_xmpp_run_once(xmpp_ctx_t *ctx, unsigned long timeout)
 {
-    /* remember the (single) connection of the scenario for the parser hook */
     feeding = ctx->connlist ? ctx->connlist->conn : NULL;
     __real_xmpp_run_once(ctx, timeout);
     feeding = NULL;
